@@ -39,8 +39,9 @@ META = {
                   "punctuation), retype (well-formed JSON in which a field's value has another JSON type: every field x every "
                   "kind of value, dependency entries, duplicated / re-cased / renamed keys, wrapped and doubled records) and "
                   "multi (2-4 substitutions, bursts, doubled and lost blocks); up to date is accepted only when an independent "
-                  "strict decoding of the corrupted bytes (the harness's own record type, every decoding error an error) is an "
-                  "unmarked record with the current stamps. A four-package project with a shared module has the record of one "
+                  "strict decoding of the corrupted bytes (the harness's own record type; the file must be exactly one JSON "
+                  "object with the record's keys: unknown keys, data after the object and every decoding error are errors) is "
+                  "an unmarked record with the current stamps. A four-package project with a shared module has the record of one "
                   "target per package corrupted and is loaded under three schedules enforced through the loader's observation "
                   "points (free; the victim's module fails before any other package's module starts; it starts after all "
                   "the others have finished): the failed read must be reported in each, a load that does not return is a hang.",
@@ -52,7 +53,11 @@ META = {
                   "the property and the model (reported as Crash by the model and excluded from the streams); that a reader's "
                   "failure is unobservable beyond the bytes it delivered (Pickle/Source.v) is a transcription of reader.Read, "
                   "validated by the failing-source runs; hang = more than 65536 reads from a source that has already failed "
-                  "(in process) or no answer within 30 s / 1 GiB resident (subprocess).",
+                  "(in process) or no answer within 30 s / 1 GiB resident (subprocess); a corruption of a marked record into "
+                  "a byte string that is, strictly decoded, a valid current record without the marker (true -> null / false, "
+                  "a duplicated key, a lost `,\"rerun\":true` block) cannot be told from a real record without a checksum: it "
+                  "is accepted as up to date and counted (uptodate-valid-unmarked-record); the record format (field names, "
+                  "one object per file) is stated by the harness (c15recordRef), not taken from the loader.",
     "design_ref": "DESIGN.md §6 C15",
 }
 
@@ -545,11 +550,10 @@ def run_inner(ctx):
             k = "record:%s:%s" % (f[2], f[4])
             rec_dist[k] = rec_dist.get(k, 0) + 1
     ctx.log("record layer: %d corruptions in %.1fs: %s" % (nrec, time.time() - t0, {k: v for k, v in sorted(rec_dist.items())}))
-    lost = {k: v for k, v in rec_dist.items() if ":uptodate-marker-lost-" in k}
-    if lost:
-        ctx.log("note (observed, not judged): %d corruptions of a record carrying the re-run marker are up to date because the "
-                "loader's JSON decoding ignores unknown keys / data after the first value; to a strict reading of the file they "
-                "are not records: %s" % (sum(lost.values()), lost))
+    nvalid = sum(v for k, v in rec_dist.items() if k.endswith(":uptodate-valid-unmarked-record"))
+    if nvalid:
+        ctx.log("record layer: %d corruptions of a marked record are, strictly decoded, valid current records without the marker "
+                "(undetectable without a checksum; accepted)" % nvalid)
     unenforced = sum(v for k, v in rec_dist.items() if k.startswith("record:mp-schedule:"))
     if unenforced:
         ctx.log("note: %d load schedules of project multi could not be enforced (hold released after 5 s)" % unenforced)
